@@ -93,7 +93,7 @@ class Prop(BaseProp):
     HEADLINE = ["programs", "commands_compared", "corpus_files_processed", "corpus_commands_compared",
                 "disagreements_checked", "reference_disagreements"]
 
-    NG = {"quick": 64, "thorough": 1200}
+    NG = {"quick": 200, "thorough": 5000}
 
     def corpus(self):
         fs = sorted(glob.glob(CORPUS_GLOB, recursive=True))
